@@ -349,11 +349,11 @@ NSHARDS = 16
 
 
 def shards(tier, seed):
-    bound = 6 if tier == "quick" else 7
-    out = [{"name": f"enum{i}", "kind": "enum", "i": i, "bound": bound, "budget_s": 150 if tier == "quick" else 1800}
+    bound = 6 if tier == "quick" else 8
+    out = [{"name": f"enum{i}", "kind": "enum", "i": i, "bound": bound, "budget_s": 150 if tier == "quick" else 5400}
            for i in range(NSHARDS)]
-    out += [{"name": f"rand{i}", "kind": "rand", "i": i, "count": 6 if tier == "quick" else 400,
-             "budget_s": 90 if tier == "quick" else 900} for i in range(NSHARDS)]
+    out += [{"name": f"rand{i}", "kind": "rand", "i": i, "count": 6 if tier == "quick" else 2000,
+             "budget_s": 90 if tier == "quick" else 3600} for i in range(NSHARDS)]
     return out
 
 
